@@ -217,8 +217,14 @@ impl Scope {
                             //         read_number_of_ext_fields
                             //     )));
                         }
-                        let range = bits.pos()..bits.pos() + *number_of_ext_fields;
-                        bits.set_pos(range.start + read_number_of_ext_fields); // skip bit-field
+                        // the presence bits that were transmitted: fewer than the known fields if
+                        // the sender is older (the others are absent), more if it is newer (what
+                        // is left over after the last known field is skipped by `read_sequence`)
+                        let range = bits.pos()..bits.pos() + read_number_of_ext_fields;
+                        if bits.remaining() < read_number_of_ext_fields {
+                            return Err(ErrorKind::EndOfStream.into());
+                        }
+                        bits.set_pos(range.end); // skip bit-field
                         *self = Scope::AllBitField(range);
                     } else {
                         *self = Scope::ExtensibleSequenceEmpty(name);
@@ -978,6 +984,50 @@ impl<B: ScopedBitRead> UperReader<B> {
         result
     }
 
+    /// Skips the extension additions a newer sender has transmitted but this version of the type
+    /// does not know: each present one is an open type with a leading length determinant.
+    fn skip_unknown_extension_additions(&mut self, scope: Option<Scope>) -> Result<(), Error> {
+        let unknown = match scope {
+            // presence bits not consumed by the known fields
+            Some(Scope::AllBitField(range)) => range,
+            // no extension field is known at all, thus the extension body is still untouched
+            Some(Scope::ExtensibleSequence {
+                calls_until_ext_bitfield: 0,
+                bit_pos,
+                ..
+            }) if self.bits.with_read_position_at(bit_pos, |b| b.read_bit())? => {
+                let number_of_ext_fields = self.bits.read_normally_small_length()? as usize + 1;
+                if self.bits.remaining() < number_of_ext_fields {
+                    return Err(ErrorKind::EndOfStream.into());
+                }
+                let range = self.bits.pos()..self.bits.pos() + number_of_ext_fields;
+                self.bits.set_pos(range.end);
+                range
+            }
+            _ => return Ok(()),
+        };
+        for position in unknown {
+            if self
+                .bits
+                .with_read_position_at(position, |b| b.read_bit())?
+            {
+                loop {
+                    let length = self.read_length_determinant(None, None)?;
+                    let length_bits = (length as usize)
+                        .checked_mul(BYTE_LEN)
+                        .filter(|length_bits| *length_bits <= self.bits.remaining())
+                        .ok_or_else(Error::insufficient_data_in_source_buffer)?;
+                    self.bits.set_pos(self.bits.pos() + length_bits);
+                    // further fragments?
+                    if length < FRAGMENT_SIZE {
+                        break;
+                    }
+                }
+            }
+        }
+        Ok(())
+    }
+
     #[inline]
     pub fn read_bit_field_entry(&mut self, is_opt: bool) -> Result<Option<bool>, Error> {
         #[allow(clippy::let_and_return)]
@@ -1076,16 +1126,19 @@ impl<B: ScopedBitRead> Reader for UperReader<B> {
             r.bits.set_pos(range.end); // skip optional
 
             if let Some((extension_after, bit_pos)) = extension_after {
-                r.scope_pushed(
-                    Scope::ExtensibleSequence {
-                        name: C::NAME,
-                        bit_pos,
-                        opt_bit_field: Some(range),
-                        calls_until_ext_bitfield: (extension_after + 1) as usize,
-                        number_of_ext_fields: (C::FIELD_COUNT - (extension_after + 1)) as usize,
-                    },
-                    f,
-                )
+                let scope = Scope::ExtensibleSequence {
+                    name: C::NAME,
+                    bit_pos,
+                    opt_bit_field: Some(range),
+                    calls_until_ext_bitfield: (extension_after + 1) as usize,
+                    number_of_ext_fields: (C::FIELD_COUNT - (extension_after + 1)) as usize,
+                };
+                let original = core::mem::replace(&mut r.scope, Some(scope));
+                let result = f(r);
+                let scope = core::mem::replace(&mut r.scope, original);
+                let result = result?;
+                r.skip_unknown_extension_additions(scope)?;
+                Ok(result)
             } else {
                 r.scope_pushed(Scope::OptBitField(range), f)
             }
